@@ -5,6 +5,18 @@ visible iff every building in front of it is lower).
 Problem dict: {"n": n, "up": [...], "dw": [...], "lf": [...], "rg": [...]}; up[i] / dw[i] look down / up column i from the
 top / bottom edge, lf[i] / rg[i] look along row i from the left / right edge; a clue >= 1 is a clue, 0 is no clue.
 Answer keys: the n x n height grid, row-major.  Well-formed: every clue in 0..n.
+
+Shape descriptors: n (all clue layouts by the cap rule, n <= 4) and ("large", n, level) with level 0 = quick /
+1 = thorough for n = 5, 6: the clue-free board (n = 5 only: 161280 answers; the 8e8 answers of n = 6 cannot be listed),
+and clue sets derived from a few answers G (first, last and evenly spaced ones in enumeration order for n = 5; the
+50000th in ascending and the first in descending search order for n = 6, more of them in the thorough tier): all 4n
+views of G, the views minus every k-th clue, one side only (n = 6: all but one side), the clues of the last row / last
+column only (n = 6: all but those), single clues of value n and 1 on the far lines (n = 5), and the full set with one
+clue changed by +1 / -1 (first, last, middle, side ends), as is and thinned.
+Oracle: n = 5 - table(5), all 161280 boards with their views, listed once by search() and then filtered per instance;
+n = 6 - search(), line-by-line backtracking over the rules (lines filtered by their own clues, crossing lines kept
+duplicate-free and able to reach their clues, complete boards re-checked) returning ALL answers; selftest() compares
+search() and table() with the squares() filter on n <= 4 and with each other on n = 5.
 """
 
 import itertools
@@ -55,13 +67,259 @@ def squares(n):
     return out
 
 
+_PERMS = {}
+
+
+def _perms(n):
+    """(permutations of 1..n, per permutation a bit set of its (column, height) pairs, per permutation the bit set of
+    the permutations that share no (column, height) pair with it, (view, view from the other end) per permutation)."""
+    if n not in _PERMS:
+        perms = list(itertools.permutations(range(1, n + 1)))
+        bits = [sum(1 << (x * n + p[x] - 1) for x in range(n)) for p in perms]
+        compat = []
+        for i in range(len(perms)):
+            m = 0
+            bi = bits[i]
+            for j in range(len(perms)):
+                if not (bi & bits[j]):
+                    m |= 1 << j
+            compat.append(m)
+        views = {p: (visible(p), visible(p[::-1])) for p in perms}
+        _PERMS[n] = (perms, bits, compat, views)
+    return _PERMS[n]
+
+
+def search(n, up, dw, lf, rg, descending=False):
+    """Generator of ALL boards obeying the rules and the clues (row-major tuples).  The board is filled line by line
+    along the direction that carries more clues (transposing a board swaps up / lf and dw / rg)."""
+    if sum(1 for c in list(up) + list(dw) if c >= 1) > sum(1 for c in list(lf) + list(rg) if c >= 1):
+        for g in _search_rows(n, lf, rg, up, dw, descending):
+            yield tuple(g[x * n + y] for y in range(n) for x in range(n))
+    else:
+        for g in _search_rows(n, up, dw, lf, rg, descending):
+            yield g
+
+
+def _search_rows(n, up, dw, lf, rg, descending):
+    """Row by row.  A row candidate is a permutation with the views its row clues ask for; it is placed only if it
+    repeats no height of a row above in any column and every clued column can still reach its clue: seen from the top
+    the rows placed so far show a fixed number of buildings and the rows to come add at least one (unless height n is
+    already placed) and at most the number of missing heights above the current maximum; seen from the bottom a placed
+    building stays visible iff it exceeds everything placed below it and every missing height, and the rows to come
+    add between one and their number.  Complete boards are checked column by column against both clues."""
+    perms, bits, compat, views = _perms(n)
+    rowmask = []
+    for y in range(n):
+        m = 0
+        for j, p in enumerate(perms):
+            a, b = views[p]
+            if (lf[y] < 1 or a == lf[y]) and (rg[y] < 1 or b == rg[y]):
+                m |= 1 << j
+        rowmask.append(m)
+    colclue = [x for x in range(n) if up[x] >= 1 or dw[x] >= 1]
+    rows = []
+
+    def indices(m):
+        out = []
+        while m:
+            low = m & -m
+            out.append(low.bit_length() - 1)
+            m ^= low
+        if descending:
+            out.reverse()
+        return out
+
+    def column_possible(x):
+        col = [r[x] for r in rows]
+        missing = [v for v in range(1, n + 1) if v not in col]
+        if up[x] >= 1:
+            shown = visible(col)
+            top = max(col)
+            lo = shown + (1 if missing and top < n else 0)
+            hi = shown + sum(1 for v in missing if v > top)
+            if not lo <= up[x] <= hi:
+                return False
+        if dw[x] >= 1:
+            bar = max(missing) if missing else 0
+            stay = 0
+            for v in reversed(col):
+                if v > bar:
+                    bar = v
+                    stay += 1
+            if not stay + (1 if missing else 0) <= dw[x] <= stay + len(missing):
+                return False
+        return True
+
+    def rec(y, allowed):
+        if y == n:
+            if colclue:
+                cols = list(zip(*rows))
+                for x in colclue:
+                    a, b = views[cols[x]]
+                    if (up[x] >= 1 and a != up[x]) or (dw[x] >= 1 and b != dw[x]):
+                        return
+            yield tuple(v for r in rows for v in r)
+            return
+        for j in indices(allowed & rowmask[y]):
+            rows.append(perms[j])
+            if all(column_possible(x) for x in colclue):
+                for g in rec(y + 1, allowed & compat[j]):
+                    yield g
+            rows.pop()
+
+    return rec(0, (1 << len(perms)) - 1)
+
+
+_TABLE = {}
+_POOL = {}
+
+
+def table(n):
+    """Every board of order n (n <= 5) in search() order as (bytes of the row-major grid, bytes of its 4n views in the
+    order up, dw, lf, rg)."""
+    if n not in _TABLE:
+        perms, bits, compat, views = _perms(n)
+        z = [0] * n
+        out = []
+        for g in search(n, z, z, z, z):
+            rows = [g[y * n : (y + 1) * n] for y in range(n)]
+            cv = [views[c] for c in zip(*rows)]
+            rv = [views[r] for r in rows]
+            out.append((bytes(g), bytes([a for a, b in cv] + [b for a, b in cv] + [a for a, b in rv] + [b for a, b in rv])))
+        _TABLE[n] = out
+    return _TABLE[n]
+
+
+def pool(n, i, c):
+    """The boards of table(n) whose i-th view is c (index built on demand per clue position; speed only)."""
+    if (n, i) not in _POOL:
+        idx = {}
+        for item in table(n):
+            idx.setdefault(item[1][i], []).append(item)
+        _POOL[(n, i)] = idx
+    return _POOL[(n, i)].get(c, [])
+
+
+def from_table(n, clues):
+    want = [(i, c) for i, c in enumerate(clues) if c >= 1]
+    if not want:
+        return [tuple(g) for g, v in table(n)]
+    best = min((pool(n, i, c) for i, c in want), key=len)
+    return [tuple(g) for g, v in best if all(v[i] == c for i, c in want)]
+
+
+_SEEDS = {}
+
+
+def views_of(n, g):
+    rows = [list(g[y * n : (y + 1) * n]) for y in range(n)]
+    cols = [[rows[y][x] for y in range(n)] for x in range(n)]
+    return [visible(c) for c in cols] + [visible(c[::-1]) for c in cols] + [visible(r) for r in rows] + [visible(r[::-1]) for r in rows]
+
+
+def seed_boards(n, level):
+    key = (n, level)
+    if key in _SEEDS:
+        return _SEEDS[key]
+    z = [0] * n
+    if n <= 5:
+        allb = table(n)
+        m = 3 if level == 0 else 9
+        out = [tuple(allb[(len(allb) - 1) * j // (m - 1)][0]) for j in range(m)]
+    else:
+        want = [50000] if level == 0 else [0, 1000, 50000, 100000, 200000]
+        out = []
+        for i, g in enumerate(search(n, z, z, z, z)):
+            if i in want:
+                out.append(g)
+                if i == want[-1]:
+                    break
+        out.append(next(search(n, z, z, z, z, descending=True)))
+    _SEEDS[key] = out
+    return out
+
+
+def large_instances(n, level):
+    """Clue lists (4n values in the order up, dw, lf, rg) of the large family.  Order 6 keeps to the dense sets: with
+    one side or a few clues only it has far too many answers to list."""
+    seen = set()
+    out = []
+
+    def emit(c):
+        c = list(c)
+        if tuple(c) not in seen:
+            seen.add(tuple(c))
+            out.append(c)
+
+    if n <= 5:
+        emit([0] * (4 * n))
+        # single clues on the far lines: the full count n and the count 1
+        for side in range(4):
+            for v in (n, 1):
+                c = [0] * (4 * n)
+                c[side * n + n - 1] = v
+                emit(c)
+        c = [0] * (4 * n)
+        c[n - 1] = c[2 * n + n - 1] = n  # far column and far row both ascending: contradictory corner
+        emit(c)
+    for gi, g in enumerate(seed_boards(n, level)):
+        full = views_of(n, g)
+        emit(full)
+        lean = level == 0 and n >= 6 and gi > 0  # quick tier, order 6: the solver needs seconds on boards with many answers
+        if n <= 5:
+            ks = [2, 5] if level == 0 else [2, 3, 4, 5, 6, 7]
+        else:
+            ks = [4, 5] if level == 0 else [3, 4, 5, 6, 7, 8]
+        for k in ks:
+            for o in ([0] if level == 0 else [0, 1]):
+                emit([0 if i % k == o else v for i, v in enumerate(full)])
+        if lean:
+            continue
+        for side in range(4):
+            if level == 0 and side in (0, 2):
+                continue
+            if n <= 5:  # one side only
+                emit([v if i // n == side else 0 for i, v in enumerate(full)])
+            else:  # all but one side
+                emit([0 if i // n == side else v for i, v in enumerate(full)])
+        if n <= 5:
+            emit([v if i % n == n - 1 else 0 for i, v in enumerate(full)])  # the four clues of the far lines
+            emit([v if i // n in (1, 3) else 0 for i, v in enumerate(full)])  # bottom and right side
+        else:
+            emit([0 if i % n == n - 1 else v for i, v in enumerate(full)])  # all but the clues of the far lines
+        spots = [0, 4 * n - 1, 2 * n + n // 2] if level == 0 else [0, 4 * n - 1, 2 * n, n - 1, n, 2 * n - 1, 3 * n, 3 * n - 1, n // 2]
+        for pos in spots:
+            for d in (1, -1):
+                w = full[pos] + d
+                if 1 <= w <= n:
+                    c = list(full)
+                    c[pos] = w
+                    if level or d == 1:
+                        emit(c)
+                    # the same change with the opposite clue of that line blanked, then also every third other clue
+                    c = list(c)
+                    side, i = divmod(pos, n)
+                    c[(side ^ 1) * n + i] = 0
+                    emit(c)
+                    if level or n <= 5:
+                        c = [0 if (j % 3 == 1 and j != pos) else v for j, v in enumerate(c)]
+                        emit(c)
+    return out
+
+
 class Building(base.Rule):
     name = "building"
 
     def shapes(self, tier):
-        return [1, 2, 3, 4]
+        level = 0 if tier == "quick" else 1
+        return [1, 2, 3, 4, ("large", 5, level), ("large", 6, level)]
 
     def instances(self, shape, cap):
+        if isinstance(shape, (tuple, list)):
+            _, n, level = shape
+            for c in large_instances(n, level):
+                yield {"n": n, "up": c[0:n], "dw": c[n : 2 * n], "lf": c[2 * n : 3 * n], "rg": c[3 * n : 4 * n]}
+            return
         n = shape
         lays, k = base.layouts(4 * n, 0, list(range(1, n + 1)), cap)
         for c in lays:
@@ -75,12 +333,57 @@ class Building(base.Rule):
 
     def readings(self, p):
         clues = list(p["up"]) + list(p["dw"]) + list(p["lf"]) + list(p["rg"])
+        if p["n"] == 5:
+            return [from_table(5, clues)]
+        if p["n"] >= 6:
+            return [list(search(p["n"], p["up"], p["dw"], p["lf"], p["rg"]))]
         want = [(i, c) for i, c in enumerate(clues) if c >= 1]
         return [[g for g, views in squares(p["n"]) if all(views[i] == c for i, c in want)]]
 
     def example(self):
         p = {"n": 6, "up": [0, 0, 0, 2, 0, 3], "dw": [0, 6, 3, 3, 2, 0], "lf": [2, 0, 0, 3, 3, 3], "rg": [0, 6, 3, 0, 2, 0]}
         return p, "cspuz/puzzle/building.py _main() (twitter.com/semiexp/status/1223911674941296641; too large to enumerate)"
+
+
+def selftest():
+    assert visible([1, 2, 3]) == 3 and visible([3, 1, 2]) == 1 and visible([2, 1, 3]) == 2
+    assert [len(squares(n)) for n in (1, 2, 3, 4)] == [1, 2, 12, 576]
+    r = Building()
+    for n in (1, 2, 3, 4):
+        probs = list(r.instances(n, 2500))
+        # dense clue sets too: all views of some boards, thinned, one changed
+        sq = squares(n)
+        for g, views in sq[:: max(1, len(sq) // 12)]:
+            for k in (1000, 2, 3):
+                for pos, d in ((None, 0), (0, 1), (4 * n - 1, -1), (2 * n, 1)):
+                    c = [0 if i % k == 0 else v for i, v in enumerate(views)]
+                    if pos is not None and 1 <= c[pos] + d <= n:
+                        c[pos] += d
+                    probs.append({"n": n, "up": c[0:n], "dw": c[n : 2 * n], "lf": c[2 * n : 3 * n], "rg": c[3 * n : 4 * n]})
+        for p in probs:
+            clues = list(p["up"]) + list(p["dw"]) + list(p["lf"]) + list(p["rg"])
+            want = [(i, c) for i, c in enumerate(clues) if c >= 1]
+            ref = sorted(g for g, views in sq if all(views[i] == c for i, c in want))
+            assert sorted(search(n, p["up"], p["dw"], p["lf"], p["rg"])) == ref, p
+            assert sorted(search(n, p["up"], p["dw"], p["lf"], p["rg"], descending=True)) == ref, p
+    for g, views in squares(4)[::37]:
+        assert views_of(4, g) == list(views)
+    ex, _ = r.example()
+    sols = list(search(6, ex["up"], ex["dw"], ex["lf"], ex["rg"]))
+    assert len(sols) == 1
+    v = views_of(6, sols[0])
+    assert all(c == 0 or c == w for c, w in zip(ex["up"] + ex["dw"] + ex["lf"] + ex["rg"], v))
+    # the table of order 5: as many boards as Latin squares of order 5, all different, views recomputed from scratch
+    t = table(5)
+    assert len(t) == 161280 and len(set(g for g, v in t)) == 161280
+    for g, v in t[::997]:
+        assert views_of(5, tuple(g)) == list(v)
+        rows = [sorted(g[y * 5 : (y + 1) * 5]) for y in range(5)] + [sorted(g[x::5]) for x in range(5)]
+        assert all(r == [1, 2, 3, 4, 5] for r in rows)
+    for n in (1, 2, 3, 4):
+        assert sorted((tuple(g), tuple(v)) for g, v in table(n)) == sorted(squares(n))
+    for c in large_instances(5, 0)[:40]:
+        assert sorted(from_table(5, c)) == sorted(search(5, c[0:5], c[5:10], c[10:15], c[15:20])), c
 
 
 RULE = Building()
